@@ -257,7 +257,19 @@ func c13Run(t *rapid.T) {
 		if len(progs) > 0 && rapid.IntRange(0, 9).Draw(t, "nearcopy") < 4 {
 			base := progs[rapid.IntRange(0, len(progs)-1).Draw(t, "base")]
 			text := base.text
-			switch rapid.IntRange(0, 4).Draw(t, "variation") {
+			switch rapid.IntRange(0, 8).Draw(t, "variation") {
+			case 5:
+				text = strings.ReplaceAll(text, "\n", "\r\n") // line-ending variant
+			case 6:
+				if i := strings.Index(text, "hello"); i >= 0 {
+					text = text[:i] + "Hello" + text[i+5:] // case variant
+				} else {
+					text = text + "\t"
+				}
+			case 7:
+				text = "\n " + text + " \n" // differs only in surrounding whitespace
+			case 8:
+				text = strings.TrimSpace(text)
 			case 0:
 				text += " "
 			case 1:
